@@ -289,7 +289,7 @@ def main():
                 for o in c['failed']:
                     tprops = [t for t in (o.get('tag') or '').split('#')[0].split(',') if t] if '#' in (o.get('tag') or '') else []
                     is_known = o.get('label') and any(k.startswith('known:') and ('property=%s ' % prop) in k and ('unit=%s ' % uid) in k and ('label=%s ' % o['label']) in k + ' ' for k in known)
-                    if (tprops and prop not in tprops and prop != 'C18') or is_known:
+                    if (tprops and prop not in tprops) or is_known:
                         foreign += 1
                 total_n += c['n'] - foreign; total_ok += c['discharged']
                 rep['status'] = 'ok' if not c['failed'] else 'failed'
@@ -298,7 +298,7 @@ def main():
                 # invariants, callee preconditions) belong to every property the unit serves
                 # only *labelled* clauses (tag 'Cxx,Cyy#label': recorded findings) are scoped to the properties they name
                 tprops = [t for t in (o.get('tag') or '').split('#')[0].split(',') if t] if '#' in (o.get('tag') or '') else []
-                if tprops and prop not in tprops and prop != 'C18':
+                if tprops and prop not in tprops:
                     continue
                 srcref, ctext = src_of_line(cfile, o.get('line') or 0)
                 key = 'property=%s unit=%s obligation=%s' % (prop, uid, o['name'])
@@ -318,6 +318,24 @@ def main():
                         samples.append({'unit': uid, 'obligation': o['name'], 'status': o['status'], 'clause': (m or {}).get('text')})
                         break
             unit_reports.append(rep)
+        static_facts = []
+        if prop == 'C18' and not a.unit:
+            # alignment (from the real compilers' layout) and absence of allocation: not function contracts, see DESIGN.md C18
+            import c18_static
+            for o in c18_static.obligations(work):
+                static_facts.append({k: o[k] for k in ('name', 'status', 'detail')})
+                if o['status'] == 'UNDECIDED':
+                    undecided.append((o['name'], 'include', o['detail'])); continue
+                kf = [k for k in known if k.startswith('known:') and 'property=C18 ' in k and 'unit=c18.layout ' in k and o.get('label') and ('label=%s ' % o['label']) in k + ' ']
+                if o['status'] == 'SUCCESS':
+                    total_n += 1; total_ok += 1
+                elif kf:
+                    if not any(kf[0] == x[0] for x in known_hits):
+                        known_hits.append((kf[0], {'unit': 'c18.layout', 'obligation': o['name']}))
+                else:
+                    total_n += 1
+                    violations.append({'unit': 'c18.layout', 'copy': 'include', 'label': o.get('label'), 'obligation': o['name'], 'description': o['detail'], 'clause': None,
+                                       'gen_line': None, 'repo_src': None, 'c_text': None, 'trace': None})
         wall = time.time() - t0
         # 6. evidence
         ev = {
@@ -333,6 +351,7 @@ def main():
                 'two_source': {k: ('identical lowered text from include/ and development/' if v else ('texts differ: both verified' if v is False else 'one copy only')) for k, v in same_text.items()},
                 'undecided_units': [{'unit': x[0], 'copy': x[1], 'reason': (x[2] or '')[:600]} for x in undecided],
                 'known_findings_hit': [k for k, _ in known_hits],
+                'supporting_static_facts': static_facts,
             },
             'assumptions': ASSUMPTIONS,
             'wall_s': round(wall, 1),
